@@ -301,7 +301,13 @@ def cases(tier):
                        patches=depthcommon.patches, max_paths=200)
     # through the alias of a SHOC simple convention (coordinates known by name; held as coordinate or as plain variable),
     # and of a CF convention that has one marker only to go by
-    for via in ('convention-shoc-simple', 'convention-shoc-simple-datavar', 'convention-marker'):
+    # (one marker only and no positive attribute: the sign convention is guessed from concrete values)
+    for marker_vals in ((5.0, 10.0, 25.0), (-40.0, -15.0, -4.0)):
+        for (pd, d2s) in ((True, True), (False, None), (None, False), (True, False)):
+            yield Case(f'alias:convention-marker:guess{marker_vals[0]}:pd{pd}:d2s{d2s}', body,
+                       dict(n=3, positive=None, with_bounds=True, dimcoord=False, data_pos=1, pd=pd, d2s=d2s, depth_mode=('float64', marker_vals), via='convention-marker'),
+                       patches=depthcommon.patches, max_paths=50)
+    for via in ('convention-shoc-simple', 'convention-shoc-simple-datavar'):
         for positive in ('up', 'down'):
             for (pd, d2s) in ((True, True), (False, None), (None, False), (True, False)):
                 yield Case(f'alias:{via}:{positive}:pd{pd}:d2s{d2s}', body,
